@@ -170,7 +170,7 @@ def http_facts(block):
         head = block[:hl].decode('latin-1')
         # unfold continuation lines
         head = re.sub(r'\r?\n[ \t]+', ' ', head)
-        for line in head.splitlines()[1:]:
+        for line in re.split(r'\r?\n', head)[1:]:          # lines end at LF (not at VT, FF, NEL ...)
             if ':' in line:
                 name, value = line.split(':', 1)
                 if name.strip().lower() == 'content-type':
